@@ -17,6 +17,8 @@ pub(crate) fn clean_file(path: impl AsRef<Path>, recreate_index_file: bool) -> R
     if !path.as_ref().exists() {
         Ok(())
     } else if recreate_index_file {
+        #[cfg(pearl_verif)]
+        crate::verif::note_truncate(path.as_ref());
         StdFile::create(path).map(|_| ()).map_err(Into::into)
     } else {
         let msg = "Clean file is not permitted";
